@@ -325,3 +325,879 @@ Section RegionFacts.
     rewrite !vadd_nth in Q by (rewrite ?vadd_length; lia). lia.
   Qed.
 End RegionFacts.
+
+(* ================================================================== more vector facts *)
+Lemma vadd_length_min a b : length (vadd a b) = Nat.min (length a) (length b).
+Proof. revert b; induction a as [|x a IH]; intros [|y b]; cbn; auto. Qed.
+Lemma vsub_length_min a b : length (vsub a b) = Nat.min (length a) (length b).
+Proof. revert b; induction a as [|x a IH]; intros [|y b]; cbn; auto. Qed.
+Ltac vlen := repeat (rewrite vadd_length_min || rewrite vsub_length_min || rewrite zeros_length); lia.
+
+Lemma vadd_inj a c c' : length c = length a -> length c' = length a -> vadd a c = vadd a c' -> c = c'.
+Proof.
+  intros L1 L2 H. apply list_eq_nth; [lia|]. intros i Hi.
+  assert (nth i (vadd a c) 0 = nth i (vadd a c') 0) as Q by (rewrite H; reflexivity).
+  rewrite !vadd_nth in Q by lia. lia.
+Qed.
+
+Lemma vsub_vadd a b : length a = length b -> vsub (vadd a b) a = b.
+Proof.
+  intros L. apply list_eq_nth; [vlen|].
+  intros i Hi. rewrite vsub_nth by vlen. rewrite vadd_nth by lia. lia.
+Qed.
+
+Lemma vadd_vsub a g : length a = length g -> vadd a (vsub g a) = g.
+Proof.
+  intros L. apply list_eq_nth; [vlen|].
+  intros i Hi. rewrite vadd_nth by vlen. rewrite vsub_nth by lia. lia.
+Qed.
+
+Lemma vadd_zeros shape c : length c = length shape -> vadd (zeros shape) c = c.
+Proof.
+  intros L. apply list_eq_nth; [vlen|].
+  intros i Hi. rewrite vadd_nth by vlen. rewrite zeros_nth. lia.
+Qed.
+
+(* a local coordinate is valid iff the global coordinate it names lies in the box *)
+Lemma in_local_in_box n b c : wfb n b -> length c = n ->
+  in_box b (vadd (boff b) c) = in_local b c.
+Proof.
+  intros W L. pose proof W as [W1 W2].
+  destruct (in_local b c) eqn:E.
+  - apply (in_local_spec n) in E as [_ E]; [|assumption].
+    apply (in_box_spec n); [assumption|]. split; [vlen|].
+    intros i Hi. rewrite vadd_nth by lia. specialize (E i Hi). lia.
+  - destruct (in_box b (vadd (boff b) c)) eqn:E2; [|reflexivity].
+    apply (in_box_spec n) in E2 as [_ E2]; [|assumption].
+    assert (in_local b c = true) as X; [|congruence].
+    apply (in_local_spec n); [assumption|]. split; [assumption|].
+    intros i Hi. specialize (E2 i Hi). rewrite vadd_nth in E2 by lia. lia.
+Qed.
+
+Lemma in_box_in_local n b g : wfb n b -> in_box b g = true ->
+  in_local b (vsub g (boff b)) = true /\ vadd (boff b) (vsub g (boff b)) = g.
+Proof.
+  intros W G. pose proof W as [W1 W2].
+  pose proof G as G'. apply (in_box_spec n) in G' as [Lg _]; [|assumption].
+  assert (vadd (boff b) (vsub g (boff b)) = g) as V by (apply vadd_vsub; lia).
+  split; [|exact V].
+  rewrite <- (in_local_in_box n) by (try assumption; vlen).
+  rewrite V. exact G.
+Qed.
+
+(* ================================================================== coordinates of a shape *)
+Lemma upto_spec n i : In i (upto n) <-> 0 <= i < n.
+Proof.
+  unfold upto. rewrite in_map_iff. split.
+  - intros (k & <- & Hk). apply in_seq in Hk. lia.
+  - intros H. exists (Z.to_nat i). split; [lia|]. apply in_seq. lia.
+Qed.
+
+Lemma coords_spec lens : forall c, In c (coords lens) <-> in_range (zeros lens) lens c = true.
+Proof.
+  induction lens as [|l lens IH]; intros c.
+  - cbn. split.
+    + intros [<-|[]]. reflexivity.
+    + destruct c; [auto|discriminate].
+  - cbn [coords]. rewrite in_flat_map. split.
+    + intros (i & Hi & Hc). apply in_map_iff in Hc as (c' & <- & Hc'). apply upto_spec in Hi. apply IH in Hc'.
+      cbn. fold (zeros lens). rewrite Hc'. rewrite andb_true_r.
+      apply andb_true_intro; split; [apply Z.leb_le|apply Z.ltb_lt]; lia.
+    + destruct c as [|i c']; [discriminate|]. cbn. fold (zeros lens). intros H.
+      apply andb_prop in H as [H H3]. apply andb_prop in H as [H1 H2].
+      apply Z.leb_le in H1. apply Z.ltb_lt in H2.
+      exists i. split; [apply upto_spec; lia|]. apply in_map. apply IH. exact H3.
+Qed.
+
+(* ================================================================== narrow + copy_ *)
+Section CopyFold.
+  Context {E : Type} (doff soff : list Z) (src : tensor E).
+  Let step := fun (t : tensor E) (c : coord) => tset t (vadd doff c) (src (vadd soff c)).
+
+  Lemma fold_tset_miss cs : forall t x,
+    (forall c, In c cs -> vadd doff c <> x) -> fold_left step cs t x = t x.
+  Proof.
+    induction cs as [|c cs IH]; intros t x H; cbn; [reflexivity|].
+    rewrite IH by (intros c' Hc'; apply H; right; exact Hc').
+    unfold step, tset. rewrite coord_eqb_neq; [reflexivity|]. apply H. left. reflexivity.
+  Qed.
+
+  Lemma fold_tset_hit cs : forall t x v,
+    (exists c, In c cs /\ vadd doff c = x) ->
+    (forall c, In c cs -> vadd doff c = x -> src (vadd soff c) = v) ->
+    fold_left step cs t x = v.
+  Proof.
+    induction cs as [|c cs IH] using rev_ind; intros t x v (c0 & Hin & Hx) Hv; [destruct Hin|].
+    rewrite fold_left_app. cbn. unfold step at 1, tset.
+    destruct (coord_eqb (vadd doff c) x) eqn:Q.
+    - apply coord_eqb_eq in Q. apply Hv; [apply in_or_app; right; left; reflexivity|exact Q].
+    - apply IH.
+      + exists c0. split; [|exact Hx]. apply in_app_or in Hin as [Hin|[<-|[]]]; [exact Hin|].
+        rewrite Hx, coord_eqb_refl in Q. discriminate.
+      + intros c' Hc' Hx'. apply Hv; [apply in_or_app; left; exact Hc'|exact Hx'].
+  Qed.
+End CopyFold.
+
+Lemma r_lengths (r : region) : length (r_dst r) = length (r_len r) /\ length (r_src r) = length (r_len r).
+Proof. unfold r_dst, r_src, r_len. rewrite !map_length. split; reflexivity. Qed.
+
+(* dst[dst_off + c] := src[src_off + c] for every c of the length box ... *)
+Lemma copy_region_hit {E} (r : region) (src dst : tensor E) c :
+  in_range (zeros (r_len r)) (r_len r) c = true ->
+  copy_region r src dst (vadd (r_dst r) c) = src (vadd (r_src r) c).
+Proof.
+  intros Hc. unfold copy_region. apply fold_tset_hit.
+  - exists c. split; [apply coords_spec; exact Hc|reflexivity].
+  - intros c' Hc' Hx. apply coords_spec in Hc'.
+    destruct (r_lengths r) as [L1 _].
+    apply in_lens_spec in Hc as [Lc _]. apply in_lens_spec in Hc' as [Lc' _].
+    f_equal. f_equal. apply (vadd_inj (r_dst r)); try lia. exact Hx.
+Qed.
+
+(* ... and nothing else changes *)
+Lemma copy_region_miss {E} (r : region) (src dst : tensor E) x :
+  (forall c, in_range (zeros (r_len r)) (r_len r) c = true -> vadd (r_dst r) c <> x) ->
+  copy_region r src dst x = dst x.
+Proof.
+  intros H. unfold copy_region. apply fold_tset_miss. intros c Hc. apply H. apply coords_spec. exact Hc.
+Qed.
+
+(* ================================================================== one (saved, destination) pair *)
+Definition writes {E} (db : box) (s : sshard E) (x : coord) : bool :=
+  in_local db x && in_box (s_box s) (vadd (boff db) x).
+
+Lemma load_step_spec {E} n db (s : sshard E) (t : tensor E) x : wfb n db -> wfb n (s_box s) ->
+  load_step db t s x =
+  if writes db s x then s_data s (vsub (vadd (boff db) x) (boff (s_box s))) else t x.
+Proof.
+  intros Wd Ws. unfold load_step, writes. pose proof Wd as [D1 D2]. pose proof Ws as [S1 S2].
+  destruct (overlaps db (s_box s)) eqn:Ov.
+  - destruct (in_local db x && in_box (s_box s) (vadd (boff db) x)) eqn:C.
+    + apply andb_prop in C as [Hl Hg].
+      assert (length x = n) as Lx by (apply (in_local_spec n) in Hl as [Lx _]; assumption).
+      assert (in_box db (vadd (boff db) x) = true) as Hd by (rewrite (in_local_in_box n); assumption).
+      destruct (region_backward n (s_box s) db Ws Wd _ Hg Hd) as (c & Hc & E1 & E2 & _).
+      pose proof (r_dst_length n (s_box s) db Ws Wd) as LD.
+      pose proof (r_src_length n (s_box s) db Ws Wd) as LS.
+      pose proof (r_len_length n (s_box s) db Ws Wd) as LL.
+      pose proof Hc as Hc'. apply in_lens_spec in Hc' as [Lc _]. rewrite LL in Lc.
+      assert (x = vadd (r_dst (overlap_region (s_box s) db)) c) as ->.
+      { symmetry. apply (vadd_inj (boff db)); [vlen|lia|exact E2]. }
+      rewrite copy_region_hit by exact Hc. f_equal.
+      rewrite <- E1. symmetry. apply vsub_vadd. vlen.
+    + apply copy_region_miss. intros c Hc Hx. subst x.
+      destruct (region_forward n (s_box s) db Ws Wd c Hc) as (Eq & G1 & G2 & L1 & L2).
+      rewrite L2 in C. rewrite <- Eq in C. rewrite G1 in C. discriminate.
+  - destruct (in_local db x && in_box (s_box s) (vadd (boff db) x)) eqn:C; [|reflexivity].
+    exfalso. apply andb_prop in C as [Hl Hg].
+    assert (length x = n) as Lx by (apply (in_local_spec n) in Hl as [Lx _]; assumption).
+    assert (in_box db (vadd (boff db) x) = true) as Hd by (rewrite (in_local_in_box n); assumption).
+    exact (overlaps_false_disjoint n db (s_box s) _ Wd Ws Ov Hd Hg).
+Qed.
+
+(* ================================================================== all saved shards into one destination *)
+Definition box_disjoint (a b : box) : Prop := forall g, ~ (in_box a g = true /\ in_box b g = true).
+Definition shards_disjoint {E} (shards : list (sshard E)) : Prop :=
+  ForallOrdPairs (fun s s' => box_disjoint (s_box s) (s_box s')) shards.
+
+Lemma load_fold_none {E} n db (shards : list (sshard E)) : forall t x,
+  wfb n db -> (forall s, In s shards -> wfb n (s_box s)) ->
+  (forall s, In s shards -> writes db s x = false) ->
+  fold_left (load_step db) shards t x = t x.
+Proof.
+  induction shards as [|s0 rest IH]; intros t x Wd Ws Hn; cbn; [reflexivity|].
+  rewrite IH; try assumption.
+  - rewrite (load_step_spec n) by (try assumption; apply Ws; left; reflexivity).
+    rewrite Hn by (left; reflexivity). reflexivity.
+  - intros s Hs. apply Ws. right. exact Hs.
+  - intros s Hs. apply Hn. right. exact Hs.
+Qed.
+
+Lemma load_fold_some {E} n db (shards : list (sshard E)) : forall t x s,
+  wfb n db -> (forall s, In s shards -> wfb n (s_box s)) -> shards_disjoint shards ->
+  In s shards -> writes db s x = true ->
+  fold_left (load_step db) shards t x = s_data s (vsub (vadd (boff db) x) (boff (s_box s))).
+Proof.
+  induction shards as [|s0 rest IH]; intros t x s Wd Ws Dj Hin Hw; [destruct Hin|].
+  cbn. inversion Dj as [|? ? Hall Dj']; subst.
+  destruct Hin as [->|Hin].
+  - rewrite (load_fold_none n); try assumption.
+    + rewrite (load_step_spec n) by (try assumption; apply Ws; left; reflexivity). rewrite Hw. reflexivity.
+    + intros s' Hs'. apply Ws. right. exact Hs'.
+    + intros s' Hs'. destruct (writes db s' x) eqn:W'; [|reflexivity]. exfalso.
+      rewrite Forall_forall in Hall. apply (Hall s' Hs' (vadd (boff db) x)).
+      unfold writes in Hw, W'. apply andb_prop in Hw as [_ Hw]. apply andb_prop in W' as [_ W']. split; assumption.
+  - apply IH; try assumption. intros s' Hs'. apply Ws. right. exact Hs'.
+Qed.
+
+Lemma FOP_perm {A} (R : A -> A -> Prop) l l' :
+  (forall a b, R a b -> R b a) -> Permutation l l' -> ForallOrdPairs R l -> ForallOrdPairs R l'.
+Proof.
+  intros Sym P. induction P as [|x l l' P IH|x y l|l l' l'' P1 IH1 P2 IH2]; intros H.
+  - exact H.
+  - inversion H as [|? ? Hall H']; subst. constructor; [|apply IH; exact H'].
+    rewrite Forall_forall in *. intros z Hz. apply Hall. apply Permutation_in with l'; [apply Permutation_sym; exact P|exact Hz].
+  - inversion H as [|? ? Hall H']; subst. inversion H' as [|? ? Hall' H'']; subst.
+    inversion Hall as [|? ? Ryx Hall'']; subst.
+    constructor; [constructor; [apply Sym; exact Ryx|exact Hall']|]. constructor; assumption.
+  - apply IH2. apply IH1. exact H.
+Qed.
+
+Lemma box_disjoint_sym a b : box_disjoint a b -> box_disjoint b a.
+Proof. intros H g [G1 G2]. apply (H g). split; assumption. Qed.
+
+Lemma shards_disjoint_perm {E} (l l' : list (sshard E)) :
+  Permutation l l' -> shards_disjoint l -> shards_disjoint l'.
+Proof.
+  unfold shards_disjoint. apply FOP_perm. intros a b. apply box_disjoint_sym.
+Qed.
+
+(* ---------------------------------------------------------------- reshard_correct *)
+Lemma reshard_correct {E} (n : nat) (G : coord -> E) (shards : list (sshard E)) (d : dshard E) :
+  (forall s, In s shards -> wfb n (s_box s)) -> wfb n (d_box d) ->
+  shards_disjoint shards ->
+  (forall s, In s shards -> forall c, in_local (s_box s) c = true -> s_data s c = G (vadd (boff (s_box s)) c)) ->
+  forall c, in_local (d_box d) c = true ->
+    let g := vadd (boff (d_box d)) c in
+    (forall s, In s shards -> in_box (s_box s) g = true ->
+       load_dst shards d c = G g /\
+       load_dst shards d c = s_data s (vsub g (boff (s_box s))) /\
+       (forall s', In s' shards -> in_box (s_box s') g = true -> s' = s)) /\
+    ((forall s, In s shards -> in_box (s_box s) g = false) -> load_dst shards d c = d_data d c).
+Proof.
+  intros Ws Wd Dj HG c Hc g. split.
+  - intros s Hs Hg.
+    assert (writes (d_box d) s c = true) as Hw by (unfold writes; rewrite Hc; exact Hg).
+    assert (load_dst shards d c = s_data s (vsub g (boff (s_box s)))) as L.
+    { unfold load_dst. apply (load_fold_some n); assumption. }
+    split; [|split; [exact L|]].
+    + rewrite L. destruct (in_box_in_local n (s_box s) g (Ws s Hs) Hg) as [Hl V].
+      rewrite (HG s Hs _ Hl). rewrite V. reflexivity.
+    + intros s' Hs' Hg'.
+      destruct (ForallOrdPairs_In Dj s s' Hs Hs') as [Eq|[R|R]]; [symmetry; exact Eq| |];
+        exfalso; apply (R g); split; assumption.
+  - intros Hn. unfold load_dst. apply (load_fold_none n); try assumption.
+    intros s Hs. unfold writes. fold g. rewrite (Hn s Hs). apply andb_false_r.
+Qed.
+
+(* dense destination = one box at the origin: local = global coordinates *)
+Lemma reshard_dense {E} (n : nat) (G : coord -> E) (shards : list (sshard E)) (shape : list Z) (I : tensor E) :
+  (forall s, In s shards -> wfb n (s_box s)) -> length shape = n ->
+  shards_disjoint shards ->
+  (forall s, In s shards -> forall c, in_local (s_box s) c = true -> s_data s c = G (vadd (boff (s_box s)) c)) ->
+  forall c, in_local (dense_box shape) c = true ->
+    ((exists s, In s shards /\ in_box (s_box s) c = true) -> load_dst shards (mkD (dense_box shape) I) c = G c) /\
+    ((forall s, In s shards -> in_box (s_box s) c = false) -> load_dst shards (mkD (dense_box shape) I) c = I c).
+Proof.
+  intros Ws Ls Dj HG c Hc.
+  assert (wfb n (dense_box shape)) as Wd by (split; cbn; [rewrite zeros_length|]; assumption).
+  assert (length c = n) as Lc by (apply (in_local_spec n) in Hc as [Lc _]; assumption).
+  assert (vadd (boff (dense_box shape)) c = c) as V by (cbn; apply vadd_zeros; lia).
+  destruct (reshard_correct n G shards (mkD (dense_box shape) I) Ws Wd Dj HG c Hc) as [A B].
+  cbn [d_box d_data] in A, B. rewrite V in A, B. split.
+  - intros (s & Hs & Hg). destruct (A s Hs Hg) as [A1 _]. exact A1.
+  - exact B.
+Qed.
+
+(* ---------------------------------------------------------------- order independence *)
+Lemma load_order_independent {E} (n : nat) (shards shards' : list (sshard E)) (d : dshard E) :
+  (forall s, In s shards -> wfb n (s_box s)) -> wfb n (d_box d) ->
+  shards_disjoint shards -> Permutation shards shards' ->
+  forall x, load_dst shards d x = load_dst shards' d x.
+Proof.
+  intros Ws Wd Dj P x.
+  assert (forall s, In s shards' -> wfb n (s_box s)) as Ws'
+    by (intros s Hs; apply Ws; apply Permutation_in with shards'; [apply Permutation_sym; exact P|exact Hs]).
+  pose proof (shards_disjoint_perm _ _ P Dj) as Dj'.
+  unfold load_dst.
+  destruct (existsb (fun s => writes (d_box d) s x) shards) eqn:Ex.
+  - apply existsb_exists in Ex as (s & Hs & Hw).
+    rewrite (load_fold_some n (d_box d) shards _ x s) by assumption.
+    rewrite (load_fold_some n (d_box d) shards' _ x s); try assumption; [reflexivity|].
+    apply Permutation_in with shards; assumption.
+  - assert (forall s, In s shards -> writes (d_box d) s x = false) as Hn.
+    { intros s Hs. destruct (writes (d_box d) s x) eqn:W; [|reflexivity].
+      assert (existsb (fun s => writes (d_box d) s x) shards = true) as X; [|congruence].
+      apply existsb_exists. exists s. split; assumption. }
+    rewrite (load_fold_none n) by assumption.
+    rewrite (load_fold_none n); try assumption; [reflexivity|].
+    intros s Hs. apply Hn. apply Permutation_in with shards'; [apply Permutation_sym; exact P|exact Hs].
+Qed.
+
+(* the merge of the per-rank entries (sorted by offsets) is a permutation of all their shards *)
+Lemma insert_shard_perm {E} (s : sshard E) l : Permutation (insert_shard s l) (s :: l).
+Proof.
+  induction l as [|t l IH]; cbn; [apply Permutation_refl|].
+  destruct (lex_leb (boff (s_box s)) (boff (s_box t))); [apply Permutation_refl|].
+  eapply Permutation_trans; [apply perm_skip; exact IH|apply perm_swap].
+Qed.
+
+Lemma merge_shards_perm {E} (ranks : list (list (sshard E))) : Permutation (concat ranks) (merge_shards ranks).
+Proof.
+  unfold merge_shards. induction (concat ranks) as [|s l IH]; cbn; [apply Permutation_refl|].
+  apply Permutation_sym. eapply Permutation_trans; [apply insert_shard_perm|].
+  apply perm_skip. apply Permutation_sym. exact IH.
+Qed.
+
+(* ================================================================== the read plan *)
+From Coq Require Import Sorted.
+
+Lemma key_eqb_eq a b : key_eqb a b = true <-> a = b.
+Proof. exact (coord_eqb_eq a b). Qed.
+
+Lemma regions_for_app k a b : regions_for k (a ++ b) = regions_for k a ++ regions_for k b.
+Proof. unfold regions_for. rewrite filter_app, map_app. reflexivity. Qed.
+
+Lemma flat_map_ext_in {A B} (f g : A -> list B) l :
+  (forall a, In a l -> f a = g a) -> flat_map f l = flat_map g l.
+Proof.
+  induction l as [|a l IH]; intros H; cbn; [reflexivity|].
+  rewrite H by (left; reflexivity). rewrite IH; [reflexivity|]. intros b Hb. apply H. right. exact Hb.
+Qed.
+
+Lemma indexed_from_In {A} (l : list A) : forall i j s,
+  In (j, s) (indexed_from i l) <-> i <= j /\ nth_error l (Z.to_nat (j - i)) = Some s.
+Proof.
+  induction l as [|a l IH]; intros i j s; cbn.
+  - split; [intros []|]. intros [_ H]. destruct (Z.to_nat (j - i)); discriminate.
+  - rewrite IH. split.
+    + intros [H|[H1 H2]].
+      * inversion H; subst. split; [lia|]. rewrite Z.sub_diag. reflexivity.
+      * split; [lia|]. replace (Z.to_nat (j - i)) with (S (Z.to_nat (j - (i + 1)))) by lia. exact H2.
+    + intros [H1 H2]. destruct (Z.eq_dec j i) as [->|Ne].
+      * left. rewrite Z.sub_diag in H2. cbn in H2. congruence.
+      * right. split; [lia|]. replace (Z.to_nat (j - i)) with (S (Z.to_nat (j - (i + 1)))) in H2 by lia. exact H2.
+Qed.
+
+Lemma indexed_from_In_snd {A} (l : list A) i j s : In (j, s) (indexed_from i l) -> In s l.
+Proof. intros H. apply indexed_from_In in H as [_ H]. apply nth_error_In in H. exact H. Qed.
+
+Lemma indexed_from_snd {A} (l : list A) : forall i, map snd (indexed_from i l) = l.
+Proof. induction l as [|a l IH]; intros i; cbn; [reflexivity|]. rewrite IH. reflexivity. Qed.
+
+Lemma indexed_filter_sorted {A} (p : Z * A -> bool) (l : list A) : forall i,
+  StronglySorted Z.lt (map fst (filter p (indexed_from i l))) /\
+  Forall (fun j => i <= j) (map fst (filter p (indexed_from i l))).
+Proof.
+  induction l as [|a l IH]; intros i; cbn; [split; constructor|].
+  destruct (IH (i + 1)) as [S1 F1].
+  assert (Forall (fun j => i <= j) (map fst (filter p (indexed_from (i + 1) l)))) as F2
+    by (eapply Forall_impl; [|exact F1]; cbn; intros; lia).
+  destruct (p (i, a)); cbn.
+  - split; [constructor; [exact S1|]|constructor; [lia|exact F2]].
+    eapply Forall_impl; [|exact F1]. cbn; intros; lia.
+  - split; assumption.
+Qed.
+
+Section Plan.
+  Context {E : Type}.
+
+  Definition plan_inner (id : Z * box) (shards : list (sshard E)) : list (list Z * (Z * region)) :=
+    flat_map (fun s => if overlaps (snd id) (s_box s)
+                       then [(s_key s, (fst id, overlap_region (s_box s) (snd id)))] else []) shards.
+
+  Lemma plan_inner_other k id shards :
+    (forall s, In s shards -> s_key s <> k) -> regions_for k (plan_inner id shards) = [].
+  Proof.
+    induction shards as [|s0 rest IH]; intros H; [reflexivity|].
+    unfold plan_inner. cbn [flat_map]. fold (plan_inner id rest).
+    rewrite regions_for_app. rewrite IH by (intros s Hs; apply H; right; exact Hs).
+    rewrite app_nil_r. destruct (overlaps (snd id) (s_box s0)); [|reflexivity].
+    unfold regions_for. cbn. rewrite coord_eqb_neq; [reflexivity|]. apply H. left. reflexivity.
+  Qed.
+
+  Lemma plan_inner_own id shards s :
+    NoDup (map s_key shards) -> In s shards ->
+    regions_for (s_key s) (plan_inner id shards) =
+    if overlaps (snd id) (s_box s) then [(fst id, overlap_region (s_box s) (snd id))] else [].
+  Proof.
+    induction shards as [|s0 rest IH]; intros ND Hin; [destruct Hin|].
+    cbn in ND. inversion ND as [|? ? Hnot ND']; subst.
+    unfold plan_inner. cbn [flat_map]. fold (plan_inner id rest). rewrite regions_for_app.
+    destruct Hin as [->|Hin].
+    - rewrite plan_inner_other.
+      + rewrite app_nil_r. destruct (overlaps (snd id) (s_box s)); [|reflexivity].
+        unfold regions_for. cbn. unfold key_eqb. rewrite coord_eqb_refl. reflexivity.
+      + intros s' Hs' Eq. apply Hnot. rewrite <- Eq. apply in_map. exact Hs'.
+    - rewrite IH by assumption.
+      assert (s_key s0 <> s_key s) as Ne by (intros Eq; apply Hnot; rewrite Eq; apply in_map; exact Hin).
+      destruct (overlaps (snd id) (s_box s0)); [|reflexivity].
+      unfold regions_for at 1. cbn. unfold key_eqb. rewrite coord_eqb_neq by exact Ne. reflexivity.
+  Qed.
+
+  Lemma regions_for_keyed (shards : list (sshard E)) dboxes s :
+    NoDup (map s_key shards) -> In s shards ->
+    regions_for (s_key s) (regions_keyed shards dboxes) = own_regions (s_box s) dboxes.
+  Proof.
+    intros ND Hin. unfold regions_keyed, own_regions. generalize (indexed dboxes) as ids.
+    induction ids as [|id ids IH]; [reflexivity|]. cbn [flat_map].
+    rewrite regions_for_app, IH. f_equal. apply (plan_inner_own id shards s ND Hin).
+  Qed.
+
+  Definition own_req (dboxes : list box) (js : Z * sshard E) : list (Z * sshard E * list (Z * region)) :=
+    match own_regions (s_box (snd js)) dboxes with
+    | [] => []
+    | l => [(fst js, snd js, l)]
+    end.
+
+  Lemma read_reqs_full_spec (shards : list (sshard E)) dboxes :
+    NoDup (map s_key shards) ->
+    read_reqs_full shards dboxes = flat_map (own_req dboxes) (indexed shards).
+  Proof.
+    intros ND. unfold read_reqs_full. apply flat_map_ext_in. intros [j s] Hin. cbn [fst snd].
+    unfold own_req. cbn [fst snd]. rewrite regions_for_keyed; [reflexivity|exact ND|].
+    exact (indexed_from_In_snd _ _ _ _ Hin).
+  Qed.
+
+  Lemma own_regions_nil_iff sb dboxes :
+    own_regions sb dboxes = [] <-> existsb (fun db => overlaps db sb) dboxes = false.
+  Proof.
+    unfold own_regions, indexed. generalize 0.
+    induction dboxes as [|db dbs IH]; intros i; cbn; [tauto|].
+    destruct (overlaps db sb); cbn; [split; discriminate|]. apply IH.
+  Qed.
+
+  Definition needed (dboxes : list box) (js : Z * sshard E) : bool :=
+    existsb (fun db => overlaps db (s_box (snd js))) dboxes.
+
+  Lemma read_plan_spec (shards : list (sshard E)) dboxes :
+    NoDup (map s_key shards) ->
+    read_plan shards dboxes = map fst (filter (needed dboxes) (indexed shards)).
+  Proof.
+    intros ND. unfold read_plan, read_reqs. rewrite map_map. rewrite read_reqs_full_spec by exact ND.
+    rewrite (map_ext _ (fun q : Z * sshard E * list (Z * region) => fst (fst q))) by reflexivity.
+    generalize (indexed shards) as L. induction L as [|[j s] L IH]; [reflexivity|].
+    cbn [flat_map filter]. rewrite map_app, IH. unfold own_req at 1. cbn [fst snd].
+    change (needed dboxes (j, s)) with (existsb (fun db => overlaps db (s_box s)) dboxes).
+    destruct (own_regions (s_box s) dboxes) as [|r l] eqn:Eo.
+    - apply own_regions_nil_iff in Eo. rewrite Eo. reflexivity.
+    - destruct (existsb (fun db => overlaps db (s_box s)) dboxes) eqn:Ex; [reflexivity|].
+      apply own_regions_nil_iff in Ex. congruence.
+  Qed.
+
+  (* each_needed_shard_read_once *)
+  Lemma read_plan_once (shards : list (sshard E)) dboxes :
+    NoDup (map s_key shards) ->
+    StronglySorted Z.lt (read_plan shards dboxes) /\
+    (forall j, In j (read_plan shards dboxes) <->
+       exists s, 0 <= j /\ nth_error shards (Z.to_nat j) = Some s /\
+                 exists db, In db dboxes /\ overlaps db (s_box s) = true) /\
+    (forall j s rs, In (j, s, rs) (read_reqs_full shards dboxes) ->
+       nth_error shards (Z.to_nat j) = Some s /\ rs = own_regions (s_box s) dboxes).
+  Proof.
+    intros ND. rewrite read_plan_spec by exact ND. split; [|split].
+    - apply indexed_filter_sorted.
+    - intros j. rewrite in_map_iff. split.
+      + intros ([j' s] & <- & Hf). apply filter_In in Hf as [Hi Hn]. cbn.
+        apply indexed_from_In in Hi as [Hj Hnth]. rewrite Z.sub_0_r in Hnth.
+        exists s. split; [exact Hj|]. split; [exact Hnth|].
+        unfold needed in Hn. cbn in Hn. apply existsb_exists in Hn. exact Hn.
+      + intros (s & Hj & Hnth & Hex). exists (j, s). split; [reflexivity|].
+        apply filter_In. split.
+        * apply indexed_from_In. rewrite Z.sub_0_r. split; assumption.
+        * unfold needed. cbn. apply existsb_exists. exact Hex.
+    - intros j s rs Hin. rewrite read_reqs_full_spec in Hin by exact ND.
+      apply in_flat_map in Hin as ([j' s'] & Hi & Hq). unfold own_req in Hq. cbn [fst snd] in Hq.
+      apply indexed_from_In in Hi as [Hj Hnth]. rewrite Z.sub_0_r in Hnth.
+      destruct (own_regions (s_box s') dboxes) eqn:Eo; [destruct Hq|].
+      destruct Hq as [Hq|[]]. inversion Hq; subst. split; [exact Hnth|symmetry; exact Eo].
+  Qed.
+
+  (* ---------------------------------------------------------------- grouped execution = load *)
+  Lemma upd_nth_app {A} (pre : list A) t ts f : upd_nth (pre ++ t :: ts) (length pre) f = pre ++ f t :: ts.
+  Proof. induction pre as [|x pre IH]; cbn; [reflexivity|]. rewrite IH. reflexivity. Qed.
+
+  Lemma consume_app (src : tensor E) a b ts : consume src (a ++ b) ts = consume src b (consume src a ts).
+  Proof. unfold consume. apply fold_left_app. Qed.
+
+  Definition step_all (dboxes : list box) (s : sshard E) (ts : list (tensor E)) : list (tensor E) :=
+    map (fun p => load_step (fst p) (snd p) s) (combine dboxes ts).
+
+  Lemma step_all_length dboxes s ts : length ts = length dboxes -> length (step_all dboxes s ts) = length dboxes.
+  Proof. intros L. unfold step_all. rewrite map_length, combine_length. lia. Qed.
+
+  Lemma consume_own (s : sshard E) : forall dboxes ts pre, length ts = length dboxes ->
+    consume (s_data s)
+      (flat_map (fun id => if overlaps (snd id) (s_box s) then [(fst id, overlap_region (s_box s) (snd id))] else [])
+                (indexed_from (Z.of_nat (length pre)) dboxes))
+      (pre ++ ts) = pre ++ step_all dboxes s ts.
+  Proof.
+    induction dboxes as [|db dbs IH]; intros [|t ts] pre L; cbn in L; try discriminate.
+    - reflexivity.
+    - cbn [indexed_from flat_map fst snd]. rewrite consume_app.
+      set (t' := load_step db t s).
+      assert (consume (s_data s)
+                (if overlaps db (s_box s) then [(Z.of_nat (length pre), overlap_region (s_box s) db)] else [])
+                (pre ++ t :: ts) = pre ++ t' :: ts) as ->.
+      { unfold t', load_step. destruct (overlaps db (s_box s)); cbn; [|reflexivity].
+        rewrite Nat2Z.id. apply upd_nth_app. }
+      replace (pre ++ t' :: ts) with ((pre ++ [t']) ++ ts) by (rewrite <- app_assoc; reflexivity).
+      replace (Z.of_nat (length pre) + 1) with (Z.of_nat (length (pre ++ [t']))) by (rewrite app_length; cbn; lia).
+      rewrite IH by lia. rewrite <- app_assoc. reflexivity.
+  Qed.
+
+  Lemma consume_own_regions (s : sshard E) dboxes ts : length ts = length dboxes ->
+    consume (s_data s) (own_regions (s_box s) dboxes) ts = step_all dboxes s ts.
+  Proof. intros L. exact (consume_own s dboxes ts [] L). Qed.
+
+  Lemma grouped_as_steps dboxes : forall (L : list (Z * sshard E)) ts, length ts = length dboxes ->
+    fold_left (fun ts q => consume (s_data (snd (fst q))) (snd q) ts) (flat_map (own_req dboxes) L) ts =
+    fold_left (fun ts s => step_all dboxes s ts) (map snd L) ts.
+  Proof.
+    induction L as [|[j s] L IH]; intros ts Len; cbn; [reflexivity|].
+    rewrite fold_left_app.
+    assert (fold_left (fun ts q => consume (s_data (snd (fst q))) (snd q) ts) (own_req dboxes (j, s)) ts
+            = step_all dboxes s ts) as ->.
+    { rewrite <- (consume_own_regions s dboxes ts Len). unfold own_req. cbn [fst snd].
+      destruct (own_regions (s_box s) dboxes); reflexivity. }
+    apply IH. apply step_all_length. exact Len.
+  Qed.
+
+  Lemma map_snd_combine {A B} (l : list A) (ts : list B) : length ts = length l -> map snd (combine l ts) = ts.
+  Proof.
+    revert ts; induction l as [|a l IH]; intros [|t ts] L; cbn in *; try discriminate; [reflexivity|].
+    f_equal. apply IH. lia.
+  Qed.
+
+  Lemma map_combine_step_all {B} (h : box -> tensor E -> B) dboxes s : forall ts, length ts = length dboxes ->
+    map (fun p => h (fst p) (snd p)) (combine dboxes (step_all dboxes s ts)) =
+    map (fun p => h (fst p) (load_step (fst p) (snd p) s)) (combine dboxes ts).
+  Proof.
+    induction dboxes as [|db dbs IH]; intros [|t ts] L; cbn in *; try discriminate; [reflexivity|].
+    f_equal. apply IH. lia.
+  Qed.
+
+  Lemma steps_as_load dboxes : forall (shards : list (sshard E)) ts, length ts = length dboxes ->
+    fold_left (fun ts s => step_all dboxes s ts) shards ts =
+    map (fun p => fold_left (load_step (fst p)) shards (snd p)) (combine dboxes ts).
+  Proof.
+    induction shards as [|s rest IH]; intros ts L; cbn.
+    - symmetry. apply map_snd_combine. exact L.
+    - rewrite IH by (apply step_all_length; exact L).
+      apply (map_combine_step_all (fun b t => fold_left (load_step b) rest t)). exact L.
+  Qed.
+
+  Lemma load_grouped_eq_load (shards : list (sshard E)) (dsts : list (dshard E)) :
+    NoDup (map s_key shards) -> load_grouped shards dsts = load shards dsts.
+  Proof.
+    intros ND. unfold load_grouped. rewrite read_reqs_full_spec by exact ND.
+    rewrite grouped_as_steps by (rewrite !map_length; reflexivity).
+    unfold indexed. rewrite indexed_from_snd.
+    rewrite steps_as_load by (rewrite !map_length; reflexivity).
+    unfold load, load_dst. induction dsts as [|d dsts IH]; cbn; [reflexivity|]. f_equal. exact IH.
+  Qed.
+End Plan.
+
+(* ================================================================== subdivide_shard *)
+(* 1-D core: pieces [i*cl, min((i+1)*cl, S)) for i < ceil(S/cl) tile [0, S) *)
+Lemma cdiv_bound S cl v : 1 <= cl -> 0 <= v < S -> v / cl < cdiv S cl.
+Proof.
+  intros Hcl Hv. unfold cdiv.
+  replace (S + cl - 1) with ((S - 1) + 1 * cl) by lia. rewrite Z.div_add by lia.
+  assert (v / cl <= (S - 1) / cl) by (apply Z.div_le_mono; lia). lia.
+Qed.
+
+Lemma piece_1d_cover S cl v : 1 <= cl -> 0 <= v < S ->
+  exists i, 0 <= i < cdiv S cl /\ i * cl <= v < Z.min ((i + 1) * cl) S.
+Proof.
+  intros Hcl Hv. exists (v / cl).
+  pose proof (cdiv_bound S cl v Hcl Hv).
+  pose proof (Z.div_pos v cl ltac:(lia) ltac:(lia)).
+  pose proof (Z.mul_div_le v cl ltac:(lia)).
+  pose proof (Z.mul_succ_div_gt v cl ltac:(lia)).
+  split; [lia|]. split; [lia|]. apply Z.min_glb_lt; lia.
+Qed.
+
+Lemma piece_1d_disjoint S cl i j v : 1 <= cl -> 0 <= i < j ->
+  i * cl <= v < Z.min ((i + 1) * cl) S -> j * cl <= v < Z.min ((j + 1) * cl) S -> False.
+Proof.
+  intros Hcl Hij H1 H2. assert ((i + 1) * cl <= j * cl) by (apply Z.mul_le_mono_nonneg_r; lia). lia.
+Qed.
+
+Definition piece (cl : Z) (b : box) (dim : nat) (i : Z) : box :=
+  mkBox (upd (boff b) dim (nth dim (boff b) 0 + i * cl))
+        (upd (bsz b) dim (Z.min ((i + 1) * cl) (nth dim (bsz b) 0) - i * cl)).
+
+Lemma subdivide_with_pieces cl b dim :
+  map snd (subdivide_with cl b dim) = map (piece cl b dim) (upto (cdiv (nth dim (bsz b) 0) cl)).
+Proof. unfold subdivide_with. rewrite map_map. reflexivity. Qed.
+
+Lemma piece_wf n cl b dim i : wfb n b -> wfb n (piece cl b dim i).
+Proof. intros [W1 W2]. split; cbn; rewrite upd_length; assumption. Qed.
+
+Lemma in_piece_spec n cl b dim i g : wfb n b -> (dim < n)%nat ->
+  (in_box (piece cl b dim i) g = true <->
+   length g = n /\
+   (forall k, (k < n)%nat -> k <> dim ->
+      nth k (boff b) 0 <= nth k g 0 < nth k (boff b) 0 + nth k (bsz b) 0) /\
+   nth dim (boff b) 0 + i * cl <= nth dim g 0 < nth dim (boff b) 0 + Z.min ((i + 1) * cl) (nth dim (bsz b) 0)).
+Proof.
+  intros W Hd. pose proof W as [W1 W2].
+  rewrite (in_box_spec n) by (apply piece_wf; exact W). cbn [piece boff bsz]. split.
+  - intros [L H]. split; [exact L|]. split.
+    + intros k Hk Ne. specialize (H k Hk). rewrite !upd_nth_other in H by exact Ne. exact H.
+    + specialize (H dim Hd). rewrite !upd_nth_same in H by lia. lia.
+  - intros (L & H1 & H2). split; [exact L|]. intros k Hk.
+    destruct (Nat.eq_dec k dim) as [->|Ne].
+    + rewrite !upd_nth_same by lia. lia.
+    + rewrite !upd_nth_other by exact Ne. apply H1; assumption.
+Qed.
+
+Lemma FOP_map_upto {A} (R : A -> A -> Prop) (f : Z -> A) N :
+  (forall i j, 0 <= i -> i < j -> j < N -> R (f i) (f j)) -> ForallOrdPairs R (map f (upto N)).
+Proof.
+  intros H. unfold upto. rewrite map_map.
+  assert (forall len start, (start + len <= Z.to_nat N)%nat ->
+            ForallOrdPairs R (map (fun k => f (Z.of_nat k)) (seq start len))) as X.
+  { induction len as [|len IH]; intros start Hb; cbn; constructor.
+    - rewrite Forall_forall. intros a Ha. apply in_map_iff in Ha as (k & <- & Hk). apply in_seq in Hk.
+      apply H; lia.
+    - apply IH. lia. }
+  apply X. lia.
+Qed.
+
+Lemma subdivide_disjoint_cover n b dim cl :
+  wfb n b -> (dim < n)%nat -> 1 <= cl ->
+  let ps := map snd (subdivide_with cl b dim) in
+  ForallOrdPairs box_disjoint ps /\
+  (forall p, In p ps -> wfb n p) /\
+  (forall g, in_box b g = true <-> exists p, In p ps /\ in_box p g = true).
+Proof.
+  intros W Hd Hcl ps. unfold ps. rewrite subdivide_with_pieces.
+  set (S := nth dim (bsz b) 0). set (o := nth dim (boff b) 0).
+  split; [|split].
+  - apply FOP_map_upto. intros i j Hi Hij Hj g [G1 G2].
+    apply (in_piece_spec n) in G1 as (_ & _ & G1); try assumption.
+    apply (in_piece_spec n) in G2 as (_ & _ & G2); try assumption.
+    fold S o in G1, G2.
+    apply (piece_1d_disjoint S cl i j (nth dim g 0 - o)); lia.
+  - intros p Hp. apply in_map_iff in Hp as (i & <- & _). apply piece_wf. exact W.
+  - intros g. split.
+    + intros G. pose proof G as G'. apply (in_box_spec n) in G' as [L H]; [|exact W].
+      pose proof (H dim Hd) as Hdim. fold S o in Hdim.
+      destruct (piece_1d_cover S cl (nth dim g 0 - o) Hcl ltac:(lia)) as (i & Hi & Hv).
+      exists (piece cl b dim i). split; [apply in_map; apply upto_spec; exact Hi|].
+      apply (in_piece_spec n); try assumption. split; [exact L|]. split.
+      * intros k Hk _. apply H. exact Hk.
+      * fold S o. lia.
+    + intros (p & Hp & G). apply in_map_iff in Hp as (i & <- & Hi). apply upto_spec in Hi.
+      apply (in_piece_spec n) in G as (L & H1 & H2); try assumption. fold S o in H2.
+      apply (in_box_spec n); [exact W|]. split; [exact L|]. intros k Hk.
+      destruct (Nat.eq_dec k dim) as [->|Ne]; [|apply H1; assumption].
+      fold S o. assert (0 <= i * cl) by (apply Z.mul_nonneg_nonneg; lia). lia.
+Qed.
+
+Lemma chunk_length_pos b dim esize maxb : 1 <= chunk_length b dim esize maxb.
+Proof. unfold chunk_length. lia. Qed.
+
+(* each piece is the narrowed view: it holds what the shard holds at the shifted coordinate *)
+Lemma write_piece_holds {E} n (G : coord -> E) (t : tensor E) b dim cl i c :
+  wfb n b -> (dim < n)%nat -> length c = n ->
+  (forall x, length x = n -> t x = G (vadd (boff b) x)) ->
+  narrow t dim (i * cl) c = G (vadd (boff (piece cl b dim i)) c).
+Proof.
+  intros [W1 W2] Hd Lc HG. unfold narrow. rewrite HG by (rewrite upd_length; exact Lc). f_equal.
+  cbn [piece boff]. apply list_eq_nth.
+  - rewrite !vadd_length_min, !upd_length. reflexivity.
+  - rewrite vadd_length_min, upd_length. intros k Hk.
+    rewrite !vadd_nth by (rewrite ?upd_length; lia).
+    destruct (Nat.eq_dec k dim) as [->|Ne].
+    + rewrite !upd_nth_same by lia. lia.
+    + rewrite !upd_nth_other by exact Ne. reflexivity.
+Qed.
+
+(* ================================================================== global shape *)
+Lemma corner_length n b : wfb n b -> length (corner b) = n.
+Proof. intros [W1 W2]. unfold corner. rewrite vadd_length; lia. Qed.
+
+Lemma corner_nth n b i : wfb n b -> nth i (corner b) 0 = nth i (boff b) 0 + nth i (bsz b) 0.
+Proof. intros [W1 W2]. unfold corner. apply vadd_nth. lia. Qed.
+
+Lemma vmax_gt_length acc c : length (vmax_gt acc c) = length acc.
+Proof. revert c; induction acc as [|a acc IH]; intros [|x c]; cbn; auto. Qed.
+
+Lemma vmax_gt_nth acc c i : length acc = length c -> nth i (vmax_gt acc c) 0 = Z.max (nth i acc 0) (nth i c 0).
+Proof.
+  revert c i; induction acc as [|a acc IH]; intros [|x c] i L; cbn in *; try discriminate.
+  - destruct i; reflexivity.
+  - destruct i; [|apply IH; lia].
+    destruct (x >? a) eqn:Q; [apply Z.gtb_lt in Q; lia|].
+    destruct (Z.gtb_spec x a); [discriminate|lia].
+Qed.
+
+Lemma gs_fold n (bs : list box) : forall acc, length acc = n -> (forall b, In b bs -> wfb n b) ->
+  let r := fold_left (fun acc b => vmax_gt acc (corner b)) bs acc in
+  length r = n /\
+  forall i, nth i acc 0 <= nth i r 0 /\
+            (forall b, In b bs -> nth i (corner b) 0 <= nth i r 0) /\
+            (nth i r 0 = nth i acc 0 \/ exists b, In b bs /\ nth i r 0 = nth i (corner b) 0).
+Proof.
+  induction bs as [|b0 bs IH]; intros acc L W; cbn.
+  - split; [exact L|]. intros i. split; [lia|]. split; [intros b []|left; reflexivity].
+  - assert (wfb n b0) as W0 by (apply W; left; reflexivity).
+    assert (length (vmax_gt acc (corner b0)) = n) as L' by (rewrite vmax_gt_length; exact L).
+    destruct (IH (vmax_gt acc (corner b0)) L' (fun b Hb => W b (or_intror Hb))) as [Lr H].
+    split; [exact Lr|]. intros i. destruct (H i) as (H1 & H2 & H3).
+    rewrite vmax_gt_nth in H1, H3 by (rewrite (corner_length n); assumption).
+    split; [lia|]. split.
+    + intros b [<-|Hb]; [lia|apply H2; exact Hb].
+    + destruct H3 as [H3|(b & Hb & H3)].
+      * destruct (Z.max_spec (nth i acc 0) (nth i (corner b0) 0)) as [[_ M]|[_ M]]; rewrite M in H3.
+        -- right. exists b0. split; [left; reflexivity|exact H3].
+        -- left. exact H3.
+      * right. exists b. split; [right; exact Hb|exact H3].
+Qed.
+
+(* _get_global_shape = per-dim max(0, max over shards of offset+size) *)
+Lemma global_shape_is_corner n (bs : list box) :
+  bs <> [] -> (forall b, In b bs -> wfb n b) ->
+  exists gs, global_shape bs = Some gs /\ length gs = n /\
+    forall i, (i < n)%nat ->
+      0 <= nth i gs 0 /\
+      (forall b, In b bs -> nth i (boff b) 0 + nth i (bsz b) 0 <= nth i gs 0) /\
+      (nth i gs 0 = 0 \/ exists b, In b bs /\ nth i gs 0 = nth i (boff b) 0 + nth i (bsz b) 0).
+Proof.
+  intros Ne W. destruct bs as [|b0 bs]; [contradiction|]. unfold global_shape.
+  assert (length (zeros (bsz b0)) = n) as L0
+    by (rewrite zeros_length; destruct (W b0 (or_introl eq_refl)); assumption).
+  destruct (gs_fold n (b0 :: bs) (zeros (bsz b0)) L0 W) as [Lr H].
+  eexists. split; [reflexivity|]. split; [exact Lr|]. intros i Hi.
+  destruct (H i) as (H1 & H2 & H3). rewrite zeros_nth in H1, H3. split; [exact H1|]. split.
+  - intros b Hb. rewrite <- (corner_nth n) by (apply W; exact Hb). apply H2. exact Hb.
+  - destruct H3 as [H3|(b & Hb & H3)]; [left; exact H3|].
+    right. exists b. split; [exact Hb|]. rewrite <- (corner_nth n) by (apply W; exact Hb). exact H3.
+Qed.
+
+Lemma all_ge_spec a : forall b, length a = length b ->
+  (all_ge a b = true <-> forall i, nth i b 0 <= nth i a 0).
+Proof.
+  induction a as [|x a IH]; intros [|y b] L; cbn in *; try discriminate.
+  - split; [intros _ i; destruct i; lia|reflexivity].
+  - rewrite andb_true_iff, IH by lia. split.
+    + intros [H1 H2] i. destruct i; [apply Z.leb_le; exact H1|apply H2].
+    + intros H. split; [apply Z.leb_le; exact (H O)|intros i; exact (H (S i))].
+Qed.
+
+Definition dominated n (bstar b : box) : Prop :=
+  wfb n b /\ forall i, nth i (corner b) 0 <= nth i (corner bstar) 0.
+
+Lemma ts_fold_stay n bstar : forall rest, wfb n bstar ->
+  (forall b, In b rest -> dominated n bstar b) ->
+  fold_left (fun shape b => if all_ge (corner b) shape then corner b else shape) rest (corner bstar) = corner bstar.
+Proof.
+  induction rest as [|b rest IH]; intros Ws D; cbn; [reflexivity|].
+  destruct (D b (or_introl eq_refl)) as [Wb Db].
+  destruct (all_ge (corner b) (corner bstar)) eqn:Q.
+  - assert (length (corner b) = length (corner bstar)) as LL by (rewrite !(corner_length n); auto).
+    rewrite (all_ge_spec _ _ LL) in Q.
+    assert (corner b = corner bstar) as ->.
+    { apply list_eq_nth; [rewrite !(corner_length n); auto|]. intros i _. specialize (Q i). specialize (Db i). lia. }
+    apply IH; [exact Ws|]. intros b' Hb'. apply D. right. exact Hb'.
+  - apply IH; [exact Ws|]. intros b' Hb'. apply D. right. exact Hb'.
+Qed.
+
+Lemma ts_fold_reach n bstar : forall rest b0, wfb n bstar -> dominated n bstar b0 ->
+  (forall b, In b rest -> dominated n bstar b) -> In bstar rest ->
+  fold_left (fun shape b => if all_ge (corner b) shape then corner b else shape) rest (corner b0) = corner bstar.
+Proof.
+  induction rest as [|b rest IH]; intros b0 Ws D0 D Hin; [destruct Hin|]. cbn.
+  assert (forall b', In b' rest -> dominated n bstar b') as D' by (intros b' Hb'; apply D; right; exact Hb').
+  destruct Hin as [->|Hin].
+  - assert (all_ge (corner bstar) (corner b0) = true) as ->.
+    { apply all_ge_spec; [destruct D0 as [W0 _]; rewrite !(corner_length n); auto|]. apply D0. }
+    apply (ts_fold_stay n); assumption.
+  - destruct (all_ge (corner b) (corner b0)).
+    + apply IH; try assumption. apply D. left. reflexivity.
+    + apply IH; assumption.
+Qed.
+
+(* when one shard's corner dominates (always the case for a partition of a box), get_tensor_shape and
+   _get_global_shape agree and equal that corner *)
+Lemma shapes_agree n (bs : list box) bstar :
+  In bstar bs -> (forall b, In b bs -> dominated n bstar b) -> (forall i, 0 <= nth i (corner bstar) 0) ->
+  tensor_shape bs = Some (corner bstar) /\ global_shape bs = Some (corner bstar).
+Proof.
+  intros Hin D Pos. destruct bs as [|b0 bs]; [destruct Hin|].
+  assert (wfb n bstar) as Ws by (destruct (D bstar Hin); assumption). split.
+  - unfold tensor_shape. f_equal. destruct Hin as [->|Hin].
+    + apply (ts_fold_stay n); [exact Ws|]. intros b Hb. apply D. right. exact Hb.
+    + apply (ts_fold_reach n); try assumption; [apply D; left; reflexivity|].
+      intros b Hb. apply D. right. exact Hb.
+  - destruct (global_shape_is_corner n (b0 :: bs)) as (gs & Eg & Lg & H); [discriminate|intros b Hb; apply D; exact Hb|].
+    rewrite Eg. f_equal. apply list_eq_nth; [rewrite (corner_length n); auto|].
+    intros i Hi. rewrite Lg in Hi. destruct (H i Hi) as (H0 & H1 & H2).
+    specialize (H1 bstar Hin). rewrite <- (corner_nth n) in H1 by exact Ws.
+    destruct H2 as [H2|(b & Hb & H2)].
+    + specialize (Pos i). lia.
+    + destruct (D b Hb) as [Wb Db]. rewrite <- (corner_nth n) in H2 by exact Wb. specialize (Db i). lia.
+Qed.
+
+Lemma nth_map_pred shape : forall i, (i < length shape)%nat ->
+  nth i (map (fun e => e - 1) shape) 0 = nth i shape 0 - 1.
+Proof. induction shape as [|e shape IH]; intros [|i] H; cbn in *; try lia. apply IH. lia. Qed.
+
+(* a family of boxes inside [0, shape) that covers the last element has a dominating corner = shape *)
+Lemma partition_corner n (bs : list box) shape :
+  length shape = n -> (forall b, In b bs -> wfb n b) ->
+  (forall b, In b bs -> forall i, (i < n)%nat -> nth i (boff b) 0 + nth i (bsz b) 0 <= nth i shape 0) ->
+  (exists b, In b bs /\ in_box b (map (fun e => e - 1) shape) = true) ->
+  exists bstar, In bstar bs /\ corner bstar = shape /\ forall b, In b bs -> dominated n bstar b.
+Proof.
+  intros Ls W Inside (bstar & Hin & Hg). exists bstar. split; [exact Hin|].
+  pose proof (W bstar Hin) as Ws.
+  apply (in_box_spec n) in Hg as [_ Hg]; [|exact Ws].
+  assert (corner bstar = shape) as Ec.
+  { apply list_eq_nth; [rewrite (corner_length n); auto|]. intros i Hi. rewrite (corner_length n) in Hi by exact Ws.
+    rewrite (corner_nth n) by exact Ws. specialize (Hg i Hi). specialize (Inside bstar Hin i Hi).
+    rewrite nth_map_pred in Hg by lia. lia. }
+  split; [exact Ec|]. intros b Hb. split; [apply W; exact Hb|]. intros i. rewrite Ec.
+  destruct (Nat.lt_ge_cases i n) as [Hi|Hi].
+  - rewrite (corner_nth n) by (apply W; exact Hb). apply Inside; assumption.
+  - rewrite !nth_overflow; [lia|lia|rewrite (corner_length n); [lia|apply W; exact Hb]].
+Qed.
+
+(* ================================================================== a checker for the hypotheses (used by the Examples) *)
+Definition wfb_b (n : nat) (b : box) : bool :=
+  Nat.eqb (length (boff b)) n && Nat.eqb (length (bsz b)) n.
+
+Fixpoint disjointb (bs : list box) : bool :=
+  match bs with
+  | [] => true
+  | b :: rest => forallb (fun b' => negb (overlaps b b')) rest && disjointb rest
+  end.
+
+Lemma wfb_b_sound n bs : forallb (wfb_b n) bs = true -> forall b, In b bs -> wfb n b.
+Proof.
+  intros H b Hb. rewrite forallb_forall in H. specialize (H b Hb). unfold wfb_b in H.
+  apply andb_prop in H as [H1 H2]. apply Nat.eqb_eq in H1, H2. split; assumption.
+Qed.
+
+Lemma disjointb_sound n bs : (forall b, In b bs -> wfb n b) -> disjointb bs = true -> ForallOrdPairs box_disjoint bs.
+Proof.
+  induction bs as [|b rest IH]; intros W H; [constructor|].
+  cbn in H. apply andb_prop in H as [H1 H2]. constructor.
+  - rewrite Forall_forall. intros b' Hb' g [G1 G2]. rewrite forallb_forall in H1.
+    specialize (H1 b' Hb'). apply negb_true_iff in H1.
+    exact (overlaps_false_disjoint n b b' g (W b (or_introl eq_refl)) (W b' (or_intror Hb')) H1 G1 G2).
+  - apply IH; [|exact H2]. intros b' Hb'. apply W. right. exact Hb'.
+Qed.
+
+Lemma shards_disjoint_of_boxes {E} (shards : list (sshard E)) :
+  ForallOrdPairs box_disjoint (map s_box shards) -> shards_disjoint shards.
+Proof.
+  unfold shards_disjoint. induction shards as [|s rest IH]; intros H; [constructor|].
+  cbn in H. inversion H as [|? ? Hall H']; subst. constructor; [|apply IH; exact H'].
+  rewrite Forall_forall in *. intros s' Hs'. apply Hall. apply in_map. exact Hs'.
+Qed.
+
+(* ---------------------------------------------------------------- example data: 5x7, uneven 2x3 grid *)
+Definition ex_G (c : coord) : Z := 1 + 7 * nth 0 c 0 + nth 1 c 0.
+Definition ex_grid (rows cols : list (Z * Z)) : list box :=
+  flat_map (fun r => map (fun c => mkBox [fst r; fst c] [snd r; snd c]) cols) rows.
+Definition ex_saved_boxes : list box := ex_grid [(0, 2); (2, 3)] [(0, 3); (3, 1); (4, 3)].
+Definition ex_saved : list (sshard Z) :=
+  map (fun ib => mkS (snd ib) [fst ib] (fun c => ex_G (vadd (boff (snd ib)) c))) (indexed ex_saved_boxes).
+Definition ex_dst_boxes : list box := ex_grid [(0, 1); (1, 3); (4, 1)] [(0, 5); (5, 2)].
+Definition ex_I (c : coord) : Z := - (1 + 9 * nth 0 c 0 + nth 1 c 0).
+Definition ex_dsts : list (dshard Z) := map (fun b => mkD b ex_I) ex_dst_boxes.
+Definition ex_dense : dshard Z := mkD (dense_box [4; 9]) ex_I.
